@@ -439,4 +439,35 @@ example : ∃ s, Iter.Reach ⟨{ Iter.code with sectionsAtomic := false }, 1, 1,
       .srcRet (some 8), .dAcquire, .fRet 0 100, .nextCall, .wHandOff 0, .cYield, .dPark, .nextCall]) rfl,
     rfl, rfl, rfl, rfl, by decide⟩
 
+/-- the discipline predicates themselves (`Model/ParMap.lean`): they hold of the operation lists regenerated from
+the source as it is, and reject each of these variants of `mapIterator.Next` / the dispatcher / `MapStream` — `Next`
+locking a second mutex `m2`; `TryLock` instead of `Lock`; `Signal` after `Unlock`; `if` instead of `for` around
+`cond.Wait()`; the dispatcher incrementing `inFlight` after `Unlock`; a `context.WithTimeout` in place of
+`context.WithCancel`; a `defer cancel()` in `MapStream`. (Two of them — `Signal` after `Unlock`, `if` for `for` with
+one dispatcher and one consumer — are harmless in Go; the predicate pins the discipline the proofs were written for,
+not the weakest one.) -/
+example :
+    let disp := [("for", ""), ("Lock", "it.m"), ("for", "it.inFlight >= bufferSize"), ("Wait", "it.cond"), ("}", ""),
+      ("inc", "it.inFlight"), ("Unlock", "it.m"), ("}", "")]
+    let next := fun (lock unlock : String × String) => [("for", ""), ("if", "it.h.Len() > 0 && it.h.Peek().idx == it.i"), lock,
+      ("dec", "it.inFlight"), ("if", "it.inFlight == it.bufferSize-1"), ("Signal", "it.cond"), ("}", ""), unlock,
+      ("}", ""), ("}", "")]
+    let ok := fun d n f => Iter.sectionsAtomicOf d n ParSync.miCondInit f ParSync.miRestSync ParSync.miTouchers ParSync.parImports
+    Iter.sectionsAtomic = true ∧ Stream.ctxPlain = true ∧
+    ok disp (next ("Lock", "it.m") ("Unlock", "it.m")) ParSync.miFields = true ∧
+    ok disp (next ("Lock", "it.m2") ("Unlock", "it.m2")) (("it.m2", "sync.Mutex") :: ParSync.miFields) = false ∧
+    ok disp (next ("TryLock", "it.m") ("Unlock", "it.m")) ParSync.miFields = false ∧
+    ok disp [("for", ""), ("if", "it.h.Len() > 0 && it.h.Peek().idx == it.i"), ("Lock", "it.m"), ("dec", "it.inFlight"),
+      ("use", "wake := it.inFlight == it.bufferSize-1"), ("Unlock", "it.m"), ("if", "wake"), ("Signal", "it.cond"), ("}", ""),
+      ("}", ""), ("}", "")] ParSync.miFields = false ∧
+    ok [("for", ""), ("Lock", "it.m"), ("if", "it.inFlight >= bufferSize"), ("Wait", "it.cond"), ("}", ""),
+      ("inc", "it.inFlight"), ("Unlock", "it.m"), ("}", "")] (next ("Lock", "it.m") ("Unlock", "it.m")) ParSync.miFields = false ∧
+    ok [("for", ""), ("Lock", "it.m"), ("for", "it.inFlight >= bufferSize"), ("Wait", "it.cond"), ("}", ""),
+      ("Unlock", "it.m"), ("inc", "it.inFlight"), ("}", "")] (next ("Lock", "it.m") ("Unlock", "it.m")) ParSync.miFields = false ∧
+    Stream.ctxPlainOf [("ctx, cancel", "context.WithTimeout(ctx, time.Minute)"), ("eg, ctx", "errgroup.WithContext(ctx)")]
+      ParSync.msCtxShadows ParSync.msCancelUses ParSync.parImports = false ∧
+    Stream.ctxPlainOf ParSync.msCtxAssigns ParSync.msCtxShadows
+      [("MapStream", "defer cancel()"), ("MapStream", "cancel: cancel"), ("mapStream.Close", "s.cancel()")] ParSync.parImports = false := by
+  decide
+
 end Juniper.Props.C14
